@@ -109,14 +109,27 @@ Definition parse_begin (fuel : nat) (kids : list ptree) : option graph :=
   | _ => None
   end.
 
-(* residues written in a parse tree *)
-Fixpoint residues (fuel : nat) (t : ptree) : list string :=
-  match fuel with
-  | 0 => []
-  | S f =>
-      match t with
-      | PRes d => [d]
-      | PBranch kids => flat_map (residues f) kids
-      | _ => []
-      end
+(* residues written in a parse tree, left to right *)
+Fixpoint residues (t : ptree) : list string :=
+  match t with
+  | PRes d => [d]
+  | PBranch kids => (fix go (l : list ptree) : list string :=
+                       match l with [] => [] | x :: r => residues x ++ go r end) kids
+  | _ => []
   end.
+
+(* the six productions of rule 'branch' *)
+Inductive shaped : ptree -> Prop :=
+| Sh2 d c : shaped (PBranch [PRes d; PCon c])
+| Sh3 d c k : shaped (PBranch k) -> shaped (PBranch [PRes d; PCon c; PBranch k])
+| ShBr a k z : shaped (PBranch k) -> shaped (PBranch [PTok a; PBranch k; PTok z])
+| Sh6 d c t1 k1 t2 kr :
+    shaped (PBranch k1) -> shaped (PBranch kr) ->
+    shaped (PBranch [PRes d; PCon c; PTok t1; PBranch k1; PTok t2; PBranch kr])
+| Sh9 d c t1 k1 t2 t3 k2 t4 kr :
+    shaped (PBranch k1) -> shaped (PBranch k2) -> shaped (PBranch kr) ->
+    shaped (PBranch [PRes d; PCon c; PTok t1; PBranch k1; PTok t2; PTok t3; PBranch k2; PTok t4; PBranch kr])
+| Sh12 d c t1 k1 t2 t3 k2 t4 t5 k3 t6 kr :
+    shaped (PBranch k1) -> shaped (PBranch k2) -> shaped (PBranch k3) -> shaped (PBranch kr) ->
+    shaped (PBranch [PRes d; PCon c; PTok t1; PBranch k1; PTok t2; PTok t3; PBranch k2; PTok t4; PTok t5; PBranch k3;
+                     PTok t6; PBranch kr]).
